@@ -31,6 +31,10 @@ def run(ctx):
         # a few silent-chronyd plans in the quick tier as well (3 s blocking queries)
         for site, action in (("writer.recv", "panic"), ("poller.loop", "return"), ("writer.done", "return")):
             plans.append({"binary": "hooked", "site": site, "hit": 2, "action": action, "chronyd": "silent", "fire_within_s": 25})
+    # late failures: the other worker has been through many iterations (and any state it accumulates,
+    # e.g. a chronyd that has been unreachable for a while) when this one dies
+    for site, action, mode in (("writer.recv", "panic", "absent"), ("writer.done", "return", "absent"), ("poller.recv", "panic", "absent"), ("writer.recv", "return", "answer")):
+        plans.append({"binary": "hooked", "site": site, "hit": 7 if q else 9, "action": action, "chronyd": mode, "fire_within_s": 200})
     # natural faults, release binary as shipped
     plans.append({"binary": "release", "natural": "shm-is-directory", "chronyd": "absent", "fire_within_s": 10})
     plans.append({"binary": "release", "natural": "shm-is-directory", "chronyd": "answer", "fire_within_s": 10})
@@ -47,7 +51,7 @@ def run(ctx):
         outs.append(o)
         b = hooked if pl["binary"] == "hooked" else relbin
         cmds.append(sandbox.wrap(["python3", os.path.join(VERIF, "vlib", "nsrun.py"), "c15", b, o, pf]))
-    res = ctx.run_parallel(cmds, 120, jobs=NPROC * 2)
+    res = ctx.run_parallel(cmds, 320, jobs=NPROC * 2)
     viol, samples = [], []
     table = {}
     lat = []
